@@ -63,6 +63,24 @@ package coordinator
 //@   call .TargetShards
 //@     requires [shard_key_of_this_group] (dbKey != nil ==> arg1 == dbKey) && (dbKey == nil ==> arg1 == gk && gkFor == recv.ID)
 //@     frame nothing
+// A source that resolves to several measurements (`FROM /cpu|mem/`) is mapped measurement by measurement: source k is
+// pruned with the shard key, the name and the shard layout of measurement k - not with those of the first one (another
+// measurement may be sharded by another tag: its matching rows live in shards the first one's key rules out).
+// (`mst` is the loop's `measurements[k]`; that binding itself is not pinned by a clause - the slice elements are not
+// framed across the meta-client calls of the loop. getTargetShardMsg below proves the two lists are parallel.)
+//@   call (*MeasurementInfo).GetShardKey
+//@     requires [shard_key_of_the_measurement_of_this_source] recv == mst
+//@   call .TargetShards
+//@     requires [pruned_as_the_measurement_of_this_source] arg0 == mst
+//@   call .TargetShardsHintQuery
+//@     requires [hinted_query_pruned_as_the_measurement_of_this_source] arg0 == mst
 //@   call .TargetShardsHintQuery
 //@     requires [shard_key_of_this_group] (dbKey != nil ==> arg1 == dbKey) && (dbKey == nil ==> arg1 == gk && gkFor == recv.ID)
 //@     frame nothing
+
+// The sources and the measurements a FROM clause resolves to are parallel lists: one source per measurement, in order.
+//@ prop C11
+//@ func (*ClusterShardMapper).getTargetShardMsg
+//@   ensures [one_source_per_measurement] result4 == nil ==> len(result0) == len(result2)
+//@   loop 1
+//@     invariant len(sources) == rangeindex + 1
